@@ -121,6 +121,9 @@ func evalInt(v ssa.Value, env map[string]int64) (int64, bool) {
 	if k, ok := ConstInt(v); ok {
 		return k, true
 	}
+	if IsNilConst(v) {
+		return 0, true // a nil pointer/interface: 0 in a domain where the term is 0 (nil) or not
+	}
 	d := Desc(v)
 	if x, ok := env[d]; ok {
 		return x, true
@@ -265,6 +268,9 @@ func ComparePred(b *ssa.BasicBlock, domain map[string][]int64, assume []string, 
 				all := true
 				for _, l := range conj {
 					v, known := evalLit(l, env, as)
+					if !known && exitedLoopLit(l, b) {
+						continue
+					}
 					if !known {
 						res.Undec = "cannot evaluate atom " + NormAtom(l.Cond, l.Pol)
 						return
@@ -455,4 +461,128 @@ func boolHelperDNF(call *ssa.Call) (dnf [][]Lit, subst map[*ssa.Parameter]string
 		}
 	}
 	return dnf, subst, true
+}
+
+
+// PredSet is the set of domain assignments (rendered "t=v, …") under which a block is reached.
+type PredSet struct {
+	True  map[string]bool
+	Undec string
+}
+
+// ComparePredSet enumerates the domain and returns the assignments under which b is reached.
+func ComparePredSet(b *ssa.BasicBlock, domain map[string][]int64, assume []string) PredSet {
+	out := PredSet{True: map[string]bool{}}
+	all := ComparePredEnum(domain, func(map[string]int64) bool { return true })
+	_ = all
+	dnf, ok := PathConds(b)
+	if !ok {
+		out.Undec = "too many paths"
+		return out
+	}
+	as := map[string]bool{}
+	for _, a := range assume {
+		as[a] = true
+	}
+	enumDomain(domain, func(env map[string]int64, key string) bool {
+		for _, conj := range dnf {
+			allTrue := true
+			for _, l := range conj {
+				v, known := evalLit(l, env, as)
+				if !known && exitedLoopLit(l, b) {
+					continue
+				}
+				if !known {
+					out.Undec = "cannot evaluate atom " + NormAtom(l.Cond, l.Pol)
+					return false
+				}
+				if !v {
+					allTrue = false
+					break
+				}
+			}
+			if allTrue {
+				out.True[key] = true
+				break
+			}
+		}
+		return true
+	})
+	return out
+}
+
+// ComparePredEnum: the assignments of the domain that satisfy spec.
+func ComparePredEnum(domain map[string][]int64, spec func(env map[string]int64) bool) map[string]bool {
+	out := map[string]bool{}
+	enumDomain(domain, func(env map[string]int64, key string) bool {
+		if spec(env) {
+			out[key] = true
+		}
+		return true
+	})
+	return out
+}
+
+func enumDomain(domain map[string][]int64, visit func(env map[string]int64, key string) bool) {
+	var terms []string
+	for t := range domain {
+		terms = append(terms, t)
+	}
+	sort.Strings(terms)
+	env := map[string]int64{}
+	stop := false
+	var rec func(i int)
+	rec = func(i int) {
+		if stop {
+			return
+		}
+		if i == len(terms) {
+			var parts []string
+			for _, t := range terms {
+				parts = append(parts, fmt.Sprintf("%s=%d", t, env[t]))
+			}
+			if !visit(env, strings.Join(parts, ", ")) {
+				stop = true
+			}
+			return
+		}
+		for _, v := range domain[terms[i]] {
+			env[terms[i]] = v
+			rec(i + 1)
+		}
+	}
+	rec(0)
+}
+
+
+// exitedLoopLit: l is the condition of a loop header whose loop does not contain b: on every
+// acyclic path to b it is taken on its exit edge, and it says nothing about the data the
+// predicate at b is about (how many entries an earlier loop walked through).
+func exitedLoopLit(l Lit, b *ssa.BasicBlock) bool {
+	refs := l.Cond.Referrers()
+	if refs == nil {
+		return false
+	}
+	for _, ref := range *refs {
+		iff, ok := ref.(*ssa.If)
+		if !ok {
+			continue
+		}
+		h := iff.Block()
+		isHeader := false
+		for _, pr := range h.Preds {
+			if h.Dominates(pr) {
+				isHeader = true
+			}
+		}
+		if !isHeader {
+			continue
+		}
+		reach := blockReach(h.Parent())
+		inLoop := h.Dominates(b) && (b == h || reach[b.Index][h.Index])
+		if !inLoop {
+			return true
+		}
+	}
+	return false
 }
